@@ -567,6 +567,13 @@ func (p *parser) typeExpr() (*TypeExpr, error) {
 	if t.kind != "ident" {
 		return nil, fmt.Errorf("expected type at %d (%q) in %q", t.pos, t.text, p.src)
 	}
+	if t.text == "interface" && p.isOp("{") {
+		p.next()
+		if err := p.expectOp("}"); err != nil {
+			return nil, err
+		}
+		return &TypeExpr{Kind: "name", Name: "any"}, nil
+	}
 	if t.text == "map" && p.isOp("[") {
 		p.next()
 		k, err := p.typeExpr()
